@@ -470,6 +470,11 @@ pub fn standard_resources() -> Vec<ResSpec> {
         mk("noop-alt", &[], "txt", "alt", &[], 0),
         mk("blank.gif", &["1x1-blank.gif", "1x1-transparent.gif", "blank"], "gif", "GIF89a-blank", &[], 0),
         mk("1x1-blank.gif", &["blank2"], "gif", "GIF89a-blank2", &[], 0),
+        // second revisions under the same names (only one revision of a name can be stored at a time;
+        // which one depends on the order of the resource list)
+        mk("set.js", &["set-constant.js", "set"], "template", "self['{{1}}'] = \"{{2}}\";", &[], 0),
+        mk("fnuser.js", &["fnuser"], "js", "function fnuser(a, b) { return fnlib() + 1; }", &["fnlib.fn"], 0),
+        mk("noop.txt", &["nooptext"], "txt", "rev2", &[], 0),
     ]
 }
 
